@@ -1,6 +1,8 @@
 CONSTANTS
-  IDs = {"Chrome-120", "Firefox-120", "iOS-14"}
-  None = "-"
+  IDs = {"Chrome-120", "Firefox-120", "Randomized"}
+  RandIDs = {"Randomized"}
+  Seeds = {1, 2, 3, 4, 5, 6}
+  Canon = TRUE
   MaxSteps = 3
   MaxCallers = 2
 INIT MCInit
